@@ -243,6 +243,7 @@ func runC06(c *Ctx) {
 	checkCoreFanouts(c)
 	checkNoRelabelAsMissing(c, "reader-requires-descriptor.no-relabel")
 	checkDeleteBundleCallers(c, "immutable-after.delete-bundle-callers")
+	checkGenericErrorDiscipline(c, "pkg/core")
 }
 
 // checkSilentSkipOnlyNotExists: in a worker loop `for k := range input { v, err := f(k); if err != nil { ... continue } ; output <- ok }`
